@@ -19,7 +19,7 @@ Local Open Scope Z_scope.
    of all replicas can still be up, and the wait timeout has passed *)
 Theorem C19_async_only_when :
   forall s f, in_state s Async = false -> in_state (tick s f) Async = true ->
-    cs_of s = false /\ hm_of s = true /\ cf_async_ok (cfg s) = true.
+    cs_of s = false /\ hm_of s = true /\ async_ok s = true.
 Proof. exact async_only_when_pf. Qed.
 
 (* to sync_recover only from async and only when both datacenters have fewer failed stores than replicas *)
@@ -90,7 +90,7 @@ Proof. exact failed_alloc_keeps_everything_pf. Qed.
 
 (* ---------- non-vacuity: dr datacenter lost, async, back, recovery over two ticks with a stale region, sync ---------- *)
 Definition ex_boot : bootp :=
-  Boot (Config true "zone" 2 1 true) None 10
+  Boot (Config true "zone" 2 1 0) None 10
        [Region 1 "" "k" 0 false; Region 2 "k" "" 0 false]
        [Store 1 "zone" Primary false false; Store 2 "zone" Primary false false; Store 3 "zone" Dr false false] 1.
 Definition ex_ops : list op :=
@@ -107,6 +107,39 @@ Example C19_nonvacuous :
      Some (Status SyncRecover 13); Some (Status Sync 15)].
 Proof. vm_compute. reflexivity. Qed.
 
+(* ---------- what IS guaranteed about the DR_STATE files and the start-up rule (formerly observations) ----------
+   The DR_STATE file goes out before the storage save and its delivery error is dropped, so members can hold a file for a status the
+   leader never served.  What the code guarantees nevertheless, for every history from every boot state: *)
+(* a file never names a state id the allocator has not handed out (nor one from before this leader started) *)
+Theorem C19_file_ids_allocated :
+  forall b ops x, In x (files (reach b ops)) -> b_id0 b <= st_id x < next_id (reach b ops).
+Proof. exact file_ids_allocated_pf. Qed.
+(* ids are never shared between files, and the file naming the id the leader serves under IS the served status: a member never holds
+   a file for a state the leader serves under a different id / an id the leader serves a different state under *)
+Theorem C19_files_have_distinct_ids :
+  forall b ops x y, In x (files (reach b ops)) -> In y (files (reach b ops)) -> st_id y = st_id x -> y = x.
+Proof. exact files_have_distinct_ids_pf. Qed.
+Theorem C19_file_for_served_id_is_served :
+  forall b ops x y, boot_ok (b_st b) (b_id0 b) ->
+    served (reach b ops) = Some x -> In y (files (reach b ops)) -> st_id y = st_id x -> y = x.
+Proof. exact file_for_served_id_is_served_pf. Qed.
+(* the start-up rule *)
+Theorem C19_startup_rule :
+  forall c st id0 rs ss b, cf_dr c = true ->
+  match st with
+  | Some x => served (boot c st id0 rs ss b) = Some x /\ stored (boot c st id0 rs ss b) = Some x /\
+              files (boot c st id0 rs ss b) = [] /\ next_id (boot c st id0 rs ss b) = id0
+  | None => served (boot c st id0 rs ss b) = Some (Status Sync id0) /\ stored (boot c st id0 rs ss b) = Some (Status Sync id0) /\
+            files (boot c st id0 rs ss b) = [Status Sync id0] /\ next_id (boot c st id0 rs ss b) = id0 + 1
+  end.
+Proof. exact startup_rule_pf. Qed.
+(* drCheckAsyncTimeout over its real inputs (wait-async-timeout, the manager's creation time, the members' confirmation times) *)
+Theorem C19_async_timeout_spec :
+  forall s, async_ok s = true <->
+    cf_timeout (cfg s) = 0 \/
+    ((forall id t, In (id, t) (c_members (clk s)) -> c_now (clk s) - t > cf_timeout (cfg s)) /\ c_now (clk s) - c_init (clk s) > cf_timeout (cfg s)).
+Proof. exact async_ok_spec_pf. Qed.
+
 Print Assumptions C19_async_only_when.
 Print Assumptions C19_recover_only_when.
 Print Assumptions C19_sync_only_after_full_scan.
@@ -118,3 +151,8 @@ Print Assumptions C19_persist_before_serve.
 Print Assumptions C19_failed_persist_keeps_state.
 Print Assumptions C19_failed_config_switch_keeps_state_and_config.
 Print Assumptions C19_failed_alloc_keeps_everything.
+Print Assumptions C19_file_ids_allocated.
+Print Assumptions C19_files_have_distinct_ids.
+Print Assumptions C19_file_for_served_id_is_served.
+Print Assumptions C19_startup_rule.
+Print Assumptions C19_async_timeout_spec.
